@@ -99,7 +99,8 @@ func otherCnr(ci int) int { return (ci + 1) % numContainers }
 func (u *Universe) sessionV1(s Spec) *protosession.SessionToken {
 	owner, req := u.Users[IDOwner], u.Users[s.Requester]
 	var t session.Object
-	h := sha256.Sum256([]byte(s.Fingerprint()))
+	// the ID depends on the token-relevant fields only, so that a forged copy has a byte-identical body
+	h := sha256.Sum256(fmt.Appendf(nil, "session-id|%v|%d|%d|%d|%d|%v|%v|%d", s.Op, s.Cnr, s.Obj, s.Requester, s.Session, s.SessionBindObj, s.PutTombstone, s.DefectArg))
 	h[6], h[8] = h[6]&0x0f|0x40, h[8]&0x3f|0x80 // UUID v4
 	t.SetID(uuid.UUID(h[:16]))
 	t.SetAuthKey((*neofsecdsa.PublicKey)(&req.Priv.PublicKey))
@@ -139,6 +140,9 @@ func (u *Universe) sessionV1(s Spec) *protosession.SessionToken {
 	m := t.ProtoMessage()
 	if s.Defect == DefSessionTampered {
 		m.Body.Lifetime.Exp += 100
+	}
+	if s.Defect == DefSessionForgedSig {
+		u.forge(m.Signature, m.Body, s)
 	}
 	return m
 }
@@ -184,7 +188,55 @@ func (u *Universe) sessionV2(s Spec) *protosession.SessionTokenV2 {
 	if s.Defect == DefSessionTampered {
 		m.Body.Lifetime.Exp += 100
 	}
+	if s.Defect == DefSessionForgedSig {
+		u.forge(m.Signature, m.Body, s)
+	}
 	return m
+}
+
+// forge replaces the signature of a genuine token, leaving its body untouched.
+func (u *Universe) forge(sig *refs.Signature, body neofscrypto.ProtoMessage, s Spec) {
+	b := make([]byte, body.MarshaledSize())
+	body.MarshalStable(b)
+	switch s.ForgeKind {
+	case 0: // a stranger signs the owner's token body
+		v, err := u.Users[IDOther2].Signer(neofscrypto.ECDSA_SHA512).Sign(b)
+		if err != nil {
+			panic(err)
+		}
+		sig.Key, sig.Sign, sig.Scheme = slices.Clone(u.Users[IDOther2].Pub), v, refs.SignatureScheme_ECDSA_SHA512
+	case 1:
+		flip(sig, s.DefectArg)
+	case 2:
+		sig.Sign = nil
+	default: // a genuine signature of the owner, but of other data
+		v, err := u.Users[IDOwner].Signer(neofscrypto.ECDSA_SHA512).Sign(append(slices.Clone(b), 0))
+		if err != nil {
+			panic(err)
+		}
+		sig.Key, sig.Sign, sig.Scheme = slices.Clone(u.Users[IDOwner].Pub), v, refs.SignatureScheme_ECDSA_SHA512
+	}
+}
+
+// TokenBodies returns the marshalled bodies of the tokens a request of spec s
+// carries (session, bearer); used to self-check that forged copies keep the body.
+func (u *Universe) TokenBodies(s Spec) (session, bearerBody []byte) {
+	m := u.meta(s)
+	enc := func(x neofscrypto.ProtoMessage) []byte {
+		b := make([]byte, x.MarshaledSize())
+		x.MarshalStable(b)
+		return b
+	}
+	if m.SessionToken != nil {
+		session = enc(m.SessionToken.Body)
+	}
+	if m.SessionTokenV2 != nil {
+		session = enc(m.SessionTokenV2.Body)
+	}
+	if m.BearerToken != nil {
+		bearerBody = enc(m.BearerToken.Body)
+	}
+	return
 }
 
 func eaclOp(op Op, tombstone bool) eacl.Operation {
@@ -245,6 +297,9 @@ func (u *Universe) bearer(s Spec) *protoacl.BearerToken {
 	m := t.ProtoMessage()
 	if s.Defect == DefBearerTampered {
 		m.Body.Lifetime.Exp += 100
+	}
+	if s.Defect == DefBearerForgedSig {
+		u.forge(m.Signature, m.Body, s)
 	}
 	return m
 }
